@@ -356,6 +356,9 @@ func Geometry(g *d2graph.Graph, pre map[string][2]float64) M {
 				sz := float64(d2target.GetIconSize(o.Box, pos.String()))
 				tl := pos.GetPointOnBox(o.Box, label.PADDING, sz, sz)
 				m["oicon"] = box(tl.X, tl.Y, sz, sz)
+				mx := float64(d2target.MAX_ICON_SIZE)
+				tlm := pos.GetPointOnBox(o.Box, label.PADDING, mx, mx)
+				m["oiconMax"] = box(tlm.X, tlm.Y, mx, mx)
 			}
 		}
 		objs = append(objs, m)
